@@ -9,7 +9,7 @@ Sum(S) == IF S = {} THEN 0 ELSE LET g == CHOOSE x \in S : TRUE IN Cardinality(Te
 ASSUME /\ ndJsonSerialize(IOEnv.VF_OUT, SetToSeq(Grouped))
        /\ PrintT(<<"VF", "CASES", Cardinality(TextDefs), Sum(TextDefs)>>)
 
-VARIABLE i
-Init == i = 0
-Next == UNCHANGED i
+VARIABLE dummy
+Init == dummy = 0
+Next == UNCHANGED dummy
 =============================================================================
